@@ -198,4 +198,21 @@ theorem gen_Cache_getZoneInterval_eq (cfg : Cfg) (hmin : cfg.minDays = -4371222)
 
 example : PeriodOK (periodOf 1700000000000000000) := by unfold PeriodOK periodOf; decide
 
+/-! ## No lock here: what the GIL is trusted for (builder B10)
+
+`__HashArrayCache` has no lock.  `zoneCache_interleaved` (`PyodaProofs/C13Conc.lean`) interleaves threads at the granularity
+"one slot read, one slot write" (the node chain is built locally and installed by ONE list store); that single list item
+loads and stores are atomic is CPython's GIL, part of the trusted base — there is no `Atomic` theorem for this class.  The
+lock discipline record regenerated from the source says exactly which operations on shared state that assumption covers; the
+theorem below pins it, so a second store, an in-place mutation of the list, or a new mutable attribute breaks the tie. -/
+
+theorem gen_Cache_getZoneInterval_gil_ops :
+    Gen.C13Z.Cache.getZoneInterval.lockInfo.gilOnly = true ∧
+    Gen.C13Z.Cache.getZoneInterval.lockInfo.shared = ["__instant_cache"] ∧
+    Gen.C13Z.Cache.getZoneInterval.lockInfo.gilOps = ["load __instant_cache[·]", "store __instant_cache[·]"] := by decide
+
+/-- the nodes are frozen after construction: their accessors touch no mutable state -/
+theorem gen_Node_accessors_frozen :
+    Gen.C13Z.Node.interval.lockInfo.shared = [] ∧ Gen.C13Z.Node.period.lockInfo.shared = [] := by decide
+
 end Pyoda.GenAgree.C13Z
